@@ -78,6 +78,18 @@ def nelms (shape : List Nat) : Nat := shape.foldl (· * ·) 1
 def flatAccess (shape : List Nat) (i : Nat) : Res :=
   if i < nelms shape then .num i else .err "OutOfBounds"
 
+/-- bytes of one element of a `DataType` as NDArray stores it (data_type_to_size) -/
+def dtypeSize (dt : String) : Nat :=
+  if dt == "Bool" || dt == "Int8" || dt == "UInt8" then 1
+  else if dt == "Int16" || dt == "UInt16" then 2
+  else if dt == "Int32" || dt == "UInt32" || dt == "Float" then 4
+  else 8
+
+/-- NDArray::get<T> / set<T> with an element type of `tsize` bytes on storage of `nelms shape` elements of `esize` bytes each:
+    the bound is the storage size in units of T (`dstore.size() / sizeof(T)`), the bytes touched are [i*tsize, (i+1)*tsize) -/
+def flatAccessAs (shape : List Nat) (esize tsize i : Nat) : Res :=
+  if i < nelms shape * esize / tsize then .num i else .err "OutOfBounds"
+
 /-- NDArray::get / set through a multi-index: `sub2index` = strides · sub (ranks must agree), then the flat access -/
 def subAccess (shape sub : List Nat) : Res :=
   if shape.length != sub.length then .err "StdOutOfRange"
